@@ -55,3 +55,18 @@ Proof. vm_compute. reflexivity. Qed.
 Definition fan2 (k : Z) (g : Z) : gkind := if g <? k then GComposite [g + 1; g + 1] else GSimple.
 Example comp_fan2_work : load (fan2 12) 0 0 = (LoadOk, 8191).
 Proof. vm_compute. reflexivity. Qed.
+
+(* ---- round 2: IFT patch-map guards ---- *)
+From FV Require Import C02.IftModel C02.IftProofs C02.IftSbs.
+(* the hypotheses of c02_ift_format1_guard hold of the feature map of font-test-data's feature_map_format1 fixture
+   (3 records, 4 entry records, width 2) *)
+Example f1_guard_hyp : Forall rec_ok [(1684826471, 400, 1); (1818847073, 384, 2); (1853189228, 301, 1)] /\
+  sumc [(1684826471, 400, 1); (1818847073, 384, 2); (1853189228, 301, 1)] * f1_width 400 * 2 <= 65535.
+Proof. split; [repeat constructor; cbn; lia|vm_compute; discriminate]. Qed.
+(* format 2: forty bare flag bytes decode to forty entries with ids 1..40; one more than the data holds is an error *)
+Example f2_bare : match f2_decode sbs_c14 3 40 41 (repeat 0 40) with F2Ok es => length es = 40%nat | _ => False end.
+Proof. vm_compute. reflexivity. Qed.
+Example f2_bare_plus_one : f2_decode sbs_c14 3 41 41 (repeat 0 40) = F2Err.
+Proof. vm_compute. reflexivity. Qed.
+Example f2_count_beyond_data : f2_decode sbs_c14 3 16777215 41 (repeat 0 40) = F2Err.
+Proof. vm_compute. reflexivity. Qed.
